@@ -1015,6 +1015,20 @@ class Evaluator:
         rv = self._record_values(ci, t)
         if rv is None:
             return None
+        if attr is not None and attr not in rv and attr in ci.methods:
+            # a read-only property of the record: its body with self bound to the record
+            node = pick_def(ci.methods[attr])
+            if any(ast.unparse(d) == "property" for d in node.decorator_list) and len(self.inline_stack) < 4:
+                try:
+                    sub = Evaluator(self.index, ci.module, node, f"{ci.qual}.{attr}", ci)
+                    sub.inline_stack = self.inline_stack + (f"{ci.qual}.{attr}",)
+                    ps = sub.run()
+                except (AnalysisError, RecursionError):
+                    return None
+                rets = ps.raw_returns
+                if len(rets) == 1 and not any(e.kind in ("store", "raise", "yield", "delete") for e in ps.events) and ps.params:
+                    return self._fold_records(fold_sub(subst(rets[0].term, {("param", ps.params[0]): t})))
+            return None
         if attr is not None:
             return rv.get(attr)
         vals = list(rv.values())
@@ -1540,6 +1554,19 @@ class Evaluator:
                 if not defs:
                     return None
                 node = pick_def(defs)
+        elif f[0] == "attr" and f[1][0] == "global" and f[1][2] == "class" and ":" in f[1][1]:
+            # Class.classmethod(...) of a class introduced after the reference tree
+            modname, cname = f[1][1].split(":")
+            module = self.index.modules.get(modname)
+            ci = module.classes.get(cname) if module is not None else None
+            if ci is None or f[2] not in ci.methods:
+                return None
+            node = pick_def(ci.methods[f[2]])
+            if not any(ast.unparse(d) == "classmethod" for d in node.decorator_list):
+                return None
+            cls = ci
+            fname = f"{cname}.{f[2]}"
+            selfterm = f[1]
         elif f[0] == "attr" and f[1] in (("param", "self"), ("param", "cls")) and self.cls is not None:
             found = self.cls.find_method(f[2])
             if not found:
